@@ -2,11 +2,13 @@ import Driver.Util
 import Driver.Snapshot
 import Driver.Config
 import Driver.Reload
+import Driver.NotifyLeak
 -- engines of work area Persist: import your Driver.<Engine> modules above and list them here
 namespace Driver.Reg.Persist
 def engines : List (String × IO UInt32) := [
   ("snapshot", Driver.runEngine Driver.Snapshot.engine),
   ("config", Driver.runEngine Driver.Config.engine),
-  ("reload", Driver.runEngine Driver.Reload.engine)
+  ("reload", Driver.runEngine Driver.Reload.engine),
+  ("notifyleak", Driver.runEngine Driver.NotifyLeak.engine)
 ]
 end Driver.Reg.Persist
